@@ -125,6 +125,14 @@ def translate_source():
     except Exception as e:
         open(out11, 'w').write('/-! source-level translation of the VALSET / VALGET constructors failed on this tree -/\n')
         status['Valset'] = 'untranslatable: translator failed (' + type(e).__name__ + ')'
+    # and the unpack methods of the block-structured messages
+    out12 = os.path.join(LEAN, 'UbxModel', 'Gen', 'SrcBlocks.lean')
+    try:
+        r = sh([PY, os.path.join(ROOT, 'tools', 'pysrc2lean_blocks.py'), REPO, out12], timeout=120)
+        status['Blocks'] = r.stdout.strip().splitlines()[-1]
+    except Exception as e:
+        open(out12, 'w').write('/-! source-level translation of the block-structured unpack methods failed on this tree -/\n')
+        status['Blocks'] = 'untranslatable: translator failed (' + type(e).__name__ + ')'
     # and the frame registry
     out10 = os.path.join(LEAN, 'UbxModel', 'Gen', 'SrcFactory.lean')
     try:
@@ -160,6 +168,8 @@ SRC_THEOREMS = {
     'Valget': ['unpack_consumed', 'valget_body_ok', 'valget_body_err', 'valget_loop', 'hdr_decode', 'valget_prelude', 'valget_unpack'],
     'Valset': ['forFields_append', 'pack_cfgs', 'pack_uint', 'names_fresh', 'add_fresh', 'valset_loop', 'valset_init', 'valset_pack', 'poll_loop', 'poll_init',
                'pack_u4s', 'poll_pack'],
+    'Blocks': ['addAll_fresh', 'blocks_loop', 'objs_append', 'padzero_append', 'padzero_decoded', 'unpack_objs', 'valueAt_objs', 'decode_ints', 'counted_eq',
+               'blk_gnss', 'blk_esfla', 'blk_esfstatus', 'quot_len', 'blk_monver'],
     'Factory': ['getitem_setitem', 'getitem_err', 'lookupR_register', 'agree_empty', 'fac_register', 'fac_build_with_data', 'fac_build'],
     'Gpsd': ['g_parse_version', 'g_devices_loop', 'g_parse_devices', 'g_line', 'g_lines', 'g_parse_gpsd_msg', 'absG_init', 'g_ready'],
     'Server': ['srv_check_poll', 'srv_check_ack_nak', 'srv_check_mga', 'srv_send', 'srv_wait', 'srv_set', 'srv_set_mga',
@@ -178,6 +188,7 @@ TRANSFERS = {   # module -> (classes it needs, theorems)
     'TransferRender': (['Render'], ['src_renderers_total']),
     'TransferValget': (['Valget', 'CfgItem', 'CfgKeyData', 'Types'], ['src_valget_terminates', 'src_valget_dichotomy', 'src_valget_reencode']),
     'TransferValset': (['Valset', 'CfgItem', 'CfgKeyData', 'Types'], ['src_valset_is_payload', 'src_valset_parts', 'src_valset_count', 'src_poll_is_payload']),
+    'TransferBlocks': (['Blocks', 'Types'], ['counted_ok', 'src_gnss_items', 'src_esfla_items', 'src_esfstatus_items', 'src_monver_items']),
     'TransferFactory': (['Factory'], ['src_registry_refines', 'src_last_registration_wins', 'src_registration_local', 'src_unregistered']),
     'TransferGpsd': (['Gpsd'], ['src_chunk_never_raises', 'src_decision_table', 'src_ready_after', 'src_requested_kept']),
     'TransferServer': (['Server', 'UbxParser'], ['src_set_returns_bounded', 'src_set_mga_returns_bounded', 'src_poll_returns_bounded', 'src_set_result',
